@@ -622,6 +622,24 @@ fn gen_app_packet(sim: &Sim, addr: u16, tag: u32) -> Packet {
     p
 }
 
+/// The node's own address: mostly one of a few corner values, sometimes any 16-bit value
+/// (never 0x0303, the fixed destination of the requests that exchanging handlers send).
+fn own_address(sim: &Sim, corner: &[u16]) -> u16 {
+    let k = sim.draw(corner.len() as u32 + 2) as usize;
+    let a = if k < corner.len() {
+        corner[k]
+    } else if k == corner.len() {
+        sim.pick(&[0xfffeu16, 0x0001, 0x7fff, 0xff00, 0x0100])
+    } else {
+        sim.u16_any()
+    };
+    if a == 0x0303 {
+        0x0304
+    } else {
+        a
+    }
+}
+
 fn other_addr_not_broadcast(sim: &Sim, own: u16) -> u16 {
     let a = sim.pick(&[0x0202u16, 0x0000, 0xfffe, 0x0001]);
     if a == own {
@@ -646,7 +664,7 @@ pub fn run(sim: &Sim, prop: &str, tier: Tier) -> Outcome {
     if prop == "C18" {
         return run_exchange(sim, prop, tier);
     }
-    let own = sim.pick(&[0x0101u16, 0xffff, 0x0000, 0x00ff, 0x8000]);
+    let own = own_address(sim, &[0x0101u16, 0xffff, 0x0000, 0x00ff, 0x8000]);
     let mut node = new_node(sim, "n", own);
     ZCTX.with(|c| *c.borrow_mut() = Some((sim.clone(), node.hlog.clone())));
     let mut zst_used = 0usize;
@@ -1738,7 +1756,7 @@ fn model_exchange(sim: &Sim, queue: &[RxItem], own: u16, kind: u32, capture: boo
 const INNER_KIND: u32 = 3; // AckEvent
 
 fn run_exchange(sim: &Sim, prop: &str, tier: Tier) -> Outcome {
-    let own = sim.pick(&[0x0101u16, 0xffff, 0x0000, 0x8000]);
+    let own = own_address(sim, &[0x0101u16, 0xffff, 0x0000, 0x8000]);
     // two identical nodes: X performs the exchange, Y performs an ordinary send of the
     // same request - "routes the request exactly like an ordinary send" is checked
     // against the implementation's own send, not against C16's model
